@@ -15,12 +15,12 @@
 import ast
 import os
 
-from .absint import FALSE, NONE, TOP, TRUE, Undecided, exc, heap_key, is_handle, own_names, unbox_deep, val
+from .absint import FALSE, NONE, TOP, TRUE, Undecided, exc, heap_key, is_handle, own_names, unbox, unbox_deep, val
 from .astutil import FUNC_TYPES, attr_chain, dotted
 from .effects import DELETED, EffectDomain, exc_info_of, is_generator
 from .generators import LazyGenerators
 
-CALLABLE_TAGS = ("func", "method", "boundmethod", "bound", "partial", "builtin", "listappend", "attrgetter", "itemgetter", "methodcaller", "classref", "ctorref", "userfn", "setmethod", "decoderfactory", "decodermethod", "strmethod", "dictmethod", "supermethod", "excclass", "trackedfn")
+CALLABLE_TAGS = ("func", "method", "boundmethod", "bound", "partial", "builtin", "listappend", "attrgetter", "itemgetter", "methodcaller", "classref", "ctorref", "userfn", "setmethod", "decoderfactory", "decodermethod", "strmethod", "dictmethod", "supermethod", "excclass", "trackedfn", "setattrmethod")
 
 
 def is_inst(v):
@@ -78,9 +78,16 @@ class ObjectDomain(LazyGenerators, EffectDomain):
         return super().compare(op, left, right)
 
     # -- class table helpers ------------------------------------------------------------------------
+    # Classes outside the repository whose methods are followed as written too, in the installed standard library's
+    # own source (parsed, never imported): the external base classes the analysed objects keep their state in.
+    followed_externals = frozenset()
+
+    def _followed(self, owner):
+        return owner is not None and (not owner.external or (owner.module.name, owner.name) in self.followed_externals)
+
     def _method(self, ci, name):
         owner, f = self.classes.resolve_method(ci, name)
-        if isinstance(f, FUNC_TYPES) and owner is not None and not owner.external:
+        if isinstance(f, FUNC_TYPES) and self._followed(owner):
             return f
         return None
 
@@ -170,6 +177,14 @@ class ObjectDomain(LazyGenerators, EffectDomain):
         """Results of reading ``attr`` on an instance (None: not known)."""
         n, ci = inst[1], inst[2]
         key = f"inst.{n}.{attr}"
+        if attr == "__setattr__" and self._method(ci, attr) is None:
+            return [val(("setattrmethod", inst), st)]   # object.__setattr__ bound to the instance: setattr(inst, name, value)
+        prop = self._declared_property(ci, attr)
+        if prop is not None and interp is not None and isinstance(prop[0], FUNC_TYPES):
+            # a property is a data descriptor: it wins over whatever the instance's own dict holds under that name
+            if self._decorators(prop[0]) & {"property", "cached_property"}:
+                return interp.inline(prop[0], {}, st, fr, receiver=ci, self_value=inst)
+            return self._run_getter(interp, prop[0], inst, st, fr, receiver=ci, self_value=inst)
         if st.has(key):
             return [val(st.get(key), st)]
         getter = self._property_getter(ci, attr)
@@ -190,6 +205,63 @@ class ObjectDomain(LazyGenerators, EffectDomain):
         if got is not None and interp is not None:
             return self._eval_class_expr(interp, got[0], got[1], st, fr)
         return None
+
+    def _declared_property(self, ci, name):
+        """(getter def, setter def or None) when a class of the MRO declares ``name`` as a property (either spelling), else None."""
+        for c in self.classes.mro(ci):
+            if not self._followed(c):
+                continue
+            if name in c.properties:
+                g, s_ = c.properties[name]
+                g = self._method(c, g.id) if isinstance(g, ast.Name) else g
+                s_ = self._method(c, s_.id) if isinstance(s_, ast.Name) else s_
+                if isinstance(g, FUNC_TYPES):
+                    return g, (s_ if isinstance(s_, FUNC_TYPES) else None)
+                return None
+            if name in c.methods or name in c.attrs:
+                return None
+        return None
+
+    def set_attribute_value(self, interp, obj, name, value, st, fr):
+        """setattr(obj, name, value) on an instance -> the state afterwards (the setter of a property runs)."""
+        prop = self._declared_property(obj[2], name)
+        if prop is None:
+            return st.set(f"inst.{obj[1]}.{name}", value)
+        if prop[1] is None:
+            raise Undecided(f"{obj[2].name}.{name} is a property without a setter and is assigned to")
+        params = [a.arg for a in prop[1].args.args]
+        outs = self.run_function(interp, prop[1], {params[1]: value}, st, fr, receiver=obj[2], self_value=obj) if len(params) == 2 else []
+        done = [r for r in outs if r.kind == "val"]
+        if len(outs) != 1 or len(done) != 1:
+            raise Undecided(f"the setter of {obj[2].name}.{name} does not simply return ({[(r.kind, r.value) for r in outs][:3]})")
+        return done[0].state
+
+    def assign_attribute(self, interp, target, value, st, fr):
+        """obj.name = value where the class of obj declares ``name`` as a property: the setter runs (None: a plain attribute)."""
+        if fr.instance is not None and isinstance(target.value, ast.Name) and target.value.id == fr.selfname:
+            obj = fr.instance
+        elif isinstance(target.value, ast.Name) and st.has(fr.local(target.value.id)):
+            obj = unbox(st.get(fr.local(target.value.id)), st)
+        elif isinstance(target.value, ast.Attribute) and not any(isinstance(n_, ast.Call) for n_ in ast.walk(target.value)):
+            got = interp.eval(target.value, st, fr)
+            obj = got[0].value if len(got) == 1 and got[0].kind == "val" else None
+        else:
+            return None
+        if not is_inst(obj):
+            return None
+        prop = self._declared_property(obj[2], target.attr)
+        if prop is None:
+            return None
+        if prop[1] is None:
+            raise Undecided(f"{obj[2].name}.{target.attr} is a property without a setter and is assigned to")
+        params = [a.arg for a in prop[1].args.args]
+        if len(params) != 2:
+            return None
+        outs = self.run_function(interp, prop[1], {params[1]: value}, st, fr, receiver=obj[2], self_value=obj)
+        done = [r for r in outs if r.kind == "val"]
+        if len(outs) != 1 or len(done) != 1:
+            raise Undecided(f"the setter of {obj[2].name}.{target.attr} does not simply return ({[(r.kind, r.value) for r in outs][:3]})")
+        return done[0].state
 
     def _eval_class_expr(self, interp, ci, expr, st, fr):
         """Evaluate a class-body expression (tables of constants, attrgetters, partials ...) in the class's module."""
@@ -815,6 +887,8 @@ class ObjectDomain(LazyGenerators, EffectDomain):
             kw = [(k, unbox_deep(v, st)) for k, v in kw]
         if tag == "trackedfn":
             return self.call_tracked_values(fn[1], pos, kw, st)
+        if tag == "setattrmethod" and len(pos) == 2 and not kw and isinstance(pos[0], tuple) and pos[0][:1] == ("const",) and isinstance(pos[0][1], str):
+            return [val(NONE, self.set_attribute_value(interp, fn[1], pos[0][1], pos[1], st, fr))]
         if tag == "excclass" and not kw:
             # an exception class held in a variable (self.skipException ...), called: an exception of that class with those arguments
             return [val(("exc", fn[1], f"made in {fr.name}", tuple(unbox_deep(v, st) for v in pos)), st)]
@@ -911,7 +985,7 @@ class ObjectDomain(LazyGenerators, EffectDomain):
             owner, name, inst = fn[1], fn[2], fn[3]
             receiver = inst[2] if inst is not None else (getattr(self, "root_class", None) or fr.receiver)
             found = self.classes.resolve_method(receiver, name, after=owner) if receiver is not None else (None, None)
-            f = found[1] if found[0] is not None and not found[0].external and isinstance(found[1], FUNC_TYPES) else None
+            f = found[1] if self._followed(found[0]) and isinstance(found[1], FUNC_TYPES) else None
             if f is None:
                 return [val(NONE, st)]   # a method of an external base (object, unittest ...): nothing this model follows
             argvals = self._bind(f, pos, kw, True)
